@@ -2,6 +2,7 @@ import CedarVerif.Lemmas.JsonRoundTrip
 import CedarVerif.Lemmas.JsonRefuse
 import CedarVerif.Lemmas.JsonExt
 import CedarVerif.Lemmas.JsonEntity
+import CedarVerif.Lemmas.JsonTypedMain
 /-
 C10 — entity / context / value JSON round trip; schema-directed parsing agrees with the escapes.
 
@@ -143,69 +144,110 @@ example : ∃ j, toJson (.record [("type", .prim (.string "User")), ("id", .prim
 
 /-! ### schema-directed parsing agrees with the explicit forms -/
 
-mutual
-/-- `v` is an instance of `τ` (value-level conformance; the checker itself is C11's subject) -/
-def instOf : Value → SchemaType → Bool
-  | .prim (.bool _), .bool => true
-  | .prim (.int _), .long => true
-  | .prim (.string _), .string => true
-  | .prim (.entityUID u), .entity ty => u.ty == ty
-  | .ext (.decimal _), .ext n => n == "decimal"
-  | .ext (.ipaddr ..), .ext n => n == "ipaddr"
-  | .ext (.datetime _), .ext n => n == "datetime"
-  | .ext (.duration _), .ext n => n == "duration"
-  | .set [], .emptySet => true
-  | .set vs, .set τ => instOfList vs τ
-  | .record kvs, .record attrs openAttrs =>
-    instOfKVs kvs attrs openAttrs && attrs.all (fun a => !a.2.1 || (lookupKV kvs a.1).isSome)
-  | _, _ => false
-def instOfList : List Value → SchemaType → Bool
-  | [], _ => true
-  | v :: vs, τ => instOf v τ && instOfList vs τ
-def instOfKVs : List (String × Value) → List (String × Bool × SchemaType) → Bool → Bool
-  | [], _, _ => true
-  | (k, v) :: kvs, attrs, openAttrs =>
-    (match lookupKV attrs k with
-     | some (_, τ) => instOf v τ
-     | none => openAttrs) && instOfKVs kvs attrs openAttrs
-end
+-- `instOf v τ` (value-level conformance), `Form τ v j` (the documents for `v` under expected type `τ`: implicit or
+-- explicit per node) and `ClosedType τ` (closed record types, attribute maps key-sorted `BTreeMap`s) are defined in
+-- `Lemmas/JsonTypedDefs.lean` (namespace `Cedar.C10`).
 
-mutual
-/-- `Form τ v j`: `j` is one of the documents for `v` under expected type `τ`, each entity reference / extension
-    value written either with its explicit escape or in an implicit form the schema allows -/
-inductive Form : Option SchemaType → Value → Json → Prop
-  | lit (τ) (p : Prim) : (∀ u, p ≠ .entityUID u) → Form τ (.prim p) (CJ.ofPrim p).toJson
-  | entExplicit (τ) (u : EntityUID) : Form τ (.prim (.entityUID u)) (CJ.ofPrim (.entityUID u)).toJson
-  | entImplicit (ty) (u : EntityUID) : Form (some (.entity ty)) (.prim (.entityUID u)) (uidJson u)
-  | extExplicit (τ) (x : Ext) (j : Json) : toJson (.ext x) = .ok j → Form τ (.ext x) j
-  | extImplicit (n) (x : Ext) (payload : Json) :
-      toJson (.ext x) = .ok (.obj [("__extn", payload)]) → Form (some (.ext n)) (.ext x) payload
-  | extBare (n) (x : Ext) (f s : String) :
-      toJson (.ext x) = .ok (.obj [("__extn", .obj [("fn", .str f), ("arg", .str s)])]) → singleArgCtor n = some f →
-      Form (some (.ext n)) (.ext x) (.str s)
-  | set (τ : Option SchemaType) (vs : List Value) (js : List Json) :
-      FormList (match τ with | some (.set e) => some e | _ => none) vs js → Form τ (.set vs) (.arr js)
-  | record (τ : Option SchemaType) (kvs : List (String × Value)) (js : List (String × Json)) :
-      FormKVs (match τ with | some (.record attrs _) => attrs | _ => []) kvs js → Form τ (.record kvs) (.obj js)
-inductive FormList : Option SchemaType → List Value → List Json → Prop
-  | nil (τ) : FormList τ [] []
-  | cons (τ) (v : Value) (j : Json) (vs : List Value) (js : List Json) :
-      Form τ v j → FormList τ vs js → FormList τ (v :: vs) (j :: js)
-inductive FormKVs : List (String × Bool × SchemaType) → List (String × Value) → List (String × Json) → Prop
-  | nil (attrs) : FormKVs attrs [] []
-  | cons (attrs) (k : String) (v : Value) (j : Json) (kvs : List (String × Value)) (js : List (String × Json)) :
-      Form ((lookupKV attrs k).map (·.2)) v j → FormKVs attrs kvs js → FormKVs attrs ((k, v) :: kvs) ((k, j) :: js)
-end
-
-/-- **typed_agrees_explicit**, full statement: for a well-formed, serialisable instance `v` of `τ` whose record
-    types are closed, every document for `v` (any implicit/explicit choice per node) parses under `τ` to a value
-    equal to `v`, and the fully explicit document parses the same with and without the type. -/
+/-- **typed_agrees_explicit**, as first stated (no hypothesis on `τ`): for a well-formed, serialisable instance `v`
+    of `τ`, every document for `v` (any implicit/explicit choice per node) parses under `τ` to a value equal to `v`,
+    and the fully explicit document parses the same with and without the type.
+    FALSE of the model (and of the implementation) for open record types — `typedAgreesExplicit_unrestricted_false`
+    below — and for "types" that declare an attribute twice (not a `BTreeMap`; second `example` below).  The precise
+    statement is `TypedAgreesExplicitClosed`, proved as `typed_agrees_explicit`. -/
 def TypedAgreesExplicit : Prop :=
   ∀ (τ : SchemaType) (v : Value), instOf v τ = true → WF v → hasReserved v = false → AllExt ExtRoundTrip v →
     (∀ j, Form (some τ) v j → ∃ v', ofJsonTyped τ j = .ok v' ∧ Value.beq v v' = true) ∧
     (∀ j, toJson v = .ok j → ofJsonTyped τ j = ofJson j)
 
-/-- part of `TypedAgreesExplicit` (explicit documents, types without special parsing rules): under `bool`,
+/-- counterexample to the unrestricted statement: an open record type drops the members it does not declare
+    (the implementation does the same: `c10` stream, `open-record` cases) -/
+theorem typedAgreesExplicit_unrestricted_false : ¬ TypedAgreesExplicit := by
+  intro h
+  have hform : Form (some (.record [] true)) (.record [("x", .prim (.int 1))]) (.obj [("x", .int 1)]) :=
+    .record _ _ _ (.cons _ "x" _ _ _ _ (.lit _ (.int 1) (by intro u hu; cases hu)) (.nil _))
+  obtain ⟨v', h1, h2⟩ := (h (.record [] true) (.record [("x", .prim (.int 1))]) (by decide)
+    (by simp only [WF, WFKVs, Sorted, List.map]; decide) (by decide) (by simp [AllExt, AllExtKVs])).1 _ hform
+  have : ofJsonTyped (.record [] true) (.obj [("x", .int 1)]) = .ok (.record []) := by rfl
+  rw [this] at h1
+  cases h1
+  simp [Value.beq, Value.beqKVs] at h2
+
+/-- a "record type" declaring `a` twice is not a Rust `SchemaType` (attributes are a `BTreeMap`); for such a list
+    the walk over the declarations parses the member once per declaration -/
+example : instOf (.record [("a", .prim (.int 1))]) (.record [("a", true, .long), ("a", true, .ext "decimal")] false) = true ∧
+    ofJsonTyped (.record [("a", true, .long), ("a", true, .ext "decimal")] false) (.obj [("a", .int 1)])
+      = .error (.eval .type) := by
+  constructor <;> rfl
+
+/-- **typed_agrees_explicit**, precise statement: for a well-formed, serialisable instance `v` of a type `τ` whose
+    record types are closed `BTreeMap`s (`ClosedType`), every document for `v` (any implicit/explicit choice per
+    node, at every nesting depth) parses under `τ` to a value equal to `v`, and the fully explicit document parses
+    the same with and without the type. -/
+def TypedAgreesExplicitClosed : Prop :=
+  ∀ (τ : SchemaType) (v : Value), instOf v τ = true → ClosedType τ → WF v → hasReserved v = false →
+    AllExt ExtRoundTrip v →
+    (∀ j, Form (some τ) v j → ∃ v', ofJsonTyped τ j = .ok v' ∧ Value.beq v v' = true) ∧
+    (∀ j, toJson v = .ok j → ofJsonTyped τ j = ofJson j)
+
+/-- **typed_agrees_explicit** (all value shapes: scalars, entity references, the four extension types in bare /
+    implicit / explicit form, nested sets, nested closed records with optional attributes).  By
+    `typed_forms_agree` (induction over the value; `Lemmas/JsonTyped*.lean`): every document of `v` parses
+    schema-directed to the *same* restricted expression, the one the explicit document parses to without a schema. -/
+theorem typed_agrees_explicit : TypedAgreesExplicitClosed := by
+  intro τ v hinst hcl hwf hres hext
+  obtain ⟨jx, e, v', hj, hb, _, ho, hfx, hall⟩ := typed_forms_agree τ v hinst hcl hwf hres hext
+  refine ⟨fun j hf => ⟨v', (hall j hf).2, hb⟩, ?_⟩
+  intro j hj'
+  rw [hj] at hj'
+  cases hj'
+  rw [(hall _ hfx).2, ho]
+
+/-- stronger form used above, worth stating: *all* documents of `v` (implicit or explicit per node) parse under
+    `τ` to one and the same value, which is the schema-less parse of the explicit document -/
+theorem typed_forms_parse_alike (τ : SchemaType) (v : Value) (hinst : instOf v τ = true) (hcl : ClosedType τ)
+    (hwf : WF v) (hres : hasReserved v = false) (hext : AllExt ExtRoundTrip v) :
+    ∃ jx, toJson v = .ok jx ∧ ∀ j, Form (some τ) v j → ofJsonTyped τ j = ofJson jx := by
+  obtain ⟨jx, e, v', hj, _, _, ho, _, hall⟩ := typed_forms_agree τ v hinst hcl hwf hres hext
+  exact ⟨jx, hj, fun j hf => by rw [(hall j hf).2, ho]⟩
+
+/-- non-vacuity of `typed_agrees_explicit`: a closed record type with an optional attribute left out, a set of
+    records, an entity reference and two extension values; the hypotheses hold and a document mixing implicit and
+    explicit forms is a `Form` -/
+def sampleType : SchemaType :=
+  .record [("d", true, .ext "decimal"), ("o", false, .long),
+           ("s", true, .set (.record [("t", true, .ext "datetime"), ("u", true, .entity "User")] false))] false
+def sampleTyped : Value :=
+  .record [("d", .ext (.decimal 15000)),
+           ("s", .set [.record [("t", .ext (.datetime 5)), ("u", .prim (.entityUID ⟨"User", "a"⟩))]])]
+def sampleDoc : Json :=
+  .obj [("d", .str "1.5000"),
+        ("s", .arr [.obj [("t", .obj [("fn", .str "offset"), ("args", .arr [
+                              .obj [("__extn", .obj [("fn", .str "datetime"), ("arg", .str "1970-01-01")])],
+                              .obj [("__extn", .obj [("fn", .str "duration"), ("arg", .str "5ms")])]])]),
+                          ("u", .obj [("type", .str "User"), ("id", .str "a")])]])]
+
+example : instOf sampleTyped sampleType = true ∧ ClosedType sampleType ∧ WF sampleTyped ∧
+    hasReserved sampleTyped = false ∧ AllExt ExtRoundTrip sampleTyped ∧ Form (some sampleType) sampleTyped sampleDoc ∧
+    ∃ v', ofJsonTyped sampleType sampleDoc = .ok v' ∧ Value.beq sampleTyped v' = true := by
+  have hinst : instOf sampleTyped sampleType = true := by decide
+  have hcl : ClosedType sampleType := by
+    simp only [sampleType, ClosedType, ClosedAttrs, Sorted, List.map]
+    decide
+  have hwf : WF sampleTyped := by
+    simp only [sampleTyped, WF, WFKVs, WFList, Sorted, List.map]
+    decide
+  have hres : hasReserved sampleTyped = false := by decide
+  have hext : AllExt ExtRoundTrip sampleTyped := by
+    simp only [sampleTyped, AllExt, AllExtKVs, AllExtList]
+    exact ⟨extRoundTrip_decimal _ (by decide), ⟨⟨extRoundTrip_datetime _ (by decide), trivial, trivial⟩, trivial⟩, trivial⟩
+  have hform : Form (some sampleType) sampleTyped sampleDoc := by
+    refine .record _ _ _ (.cons _ "d" _ _ _ _ (.extBare "decimal" _ "decimal" "1.5000" rfl rfl)
+      (.cons _ "s" _ _ _ _ (.set _ _ _ (.cons _ _ _ _ _ (.record _ _ _
+        (.cons _ "t" _ _ _ _ (.extImplicit "datetime" _ _ rfl)
+          (.cons _ "u" _ _ _ _ (.entImplicit "User" _) (.nil _)))) (.nil _))) (.nil _)))
+  exact ⟨hinst, hcl, hwf, hres, hext, hform, (typed_agrees_explicit _ _ hinst hcl hwf hres hext).1 _ hform⟩
+
+/-- beyond conforming values (explicit documents, types without special parsing rules): under `bool`,
     `long`, `string` the schema-directed parser *is* the escape-directed parser, on every document whatsoever
     (conforming or not) that is not an explicit `unknown` call. -/
 theorem typed_agrees_explicit_scalar_partial (τ : SchemaType) (hτ : τ = .bool ∨ τ = .long ∨ τ = .string ∨ τ = .emptySet)
@@ -217,7 +259,7 @@ theorem typed_agrees_explicit_scalar_partial (τ : SchemaType) (hτ : τ = .bool
     rcases hτ with rfl | rfl | rfl | rfl <;> simp [typed, hu]
   simp [ofJsonTyped, ofJson, this]
 
-/-- part of `TypedAgreesExplicit` (entity types): the implicit `{type,id}` document and the explicit
+/-- beyond conforming values (entity types, any `ty`): the implicit `{type,id}` document and the explicit
     `{"__entity":{type,id}}` document parse, under any entity type, to the reference itself; the explicit one
     parses the same without a schema. -/
 theorem typed_agrees_explicit_entity_partial (ty : EntityType) (u : EntityUID) (hv : validName u.ty = true) :
@@ -234,7 +276,7 @@ theorem typed_agrees_explicit_entity_partial (ty : EntityType) (u : EntityUID) (
       simp [CJ.ofPrim, CJ.intoExpr, hv]
     simp [ofJson, exprOfJson, CJ.ofJson, h1, h2, h3, h4', evalR, evaluate, bind, Except.bind]
 
-/-- part of `TypedAgreesExplicit` (extension types, single-argument constructors): under the extension type
+/-- beyond conforming values (extension types, single-argument constructors, any argument string): under the extension type
     `n` with constructor `f`, the bare string `s`, the implicit call `{fn: f, arg: s}` and the explicit escape
     `{"__extn": {fn: f, arg: s}}` all parse to the same result, which is also the schema-less parse of the
     explicit escape — for every string `s`, valid or not. -/
